@@ -14,7 +14,7 @@ META = dict(
     functions=["Bf3File.read_file", "Bf3File.from_binary", "Bf3File.dir_from_binary", "BytesReader.read/read_int/eof/ensure_eof", "Bec2File.read_file", "Bec2File.unpack_auth_blocks", "AuthBlock unpack methods", "AesEncryptorMixin.decrypt", "Bf3File.write_file (to build the authentic file)", "AES128Proxy.mac/encrypt/decrypt"],
     stubs=["S-io", "S-cbc", "S-crc", "S-sha", "S-mac-ideal (A1/A2 on top of the real adapter's mac)", "text-layer bypass"],
     assumptions=["A1: MAC injective on the writer's queries", "A2: MAC unforgeable (a never-MACed input yields a value different from every 16-byte window of the damaged file)", "text-level cuts reduce to binary prefix (+ 0h byte) by hex2bin's odd-length rule; cuts inside the comment header always fail to parse (AST inspection, not a solver verdict)"],
-    bounds=dict(quick="shapes: BF3 1 component (5-byte payload, 1 tag), BF3 1 component 16 bytes no tag, BF3 encrypted 17-byte component, BEC2 with customer-key block + 5-byte component; every byte position x {replace, cut, cut+nibble} (BEC2 auth-block ciphertext: one byte of the second cipher block only; C08's arbitrary-frame query covers the frame parser for every decrypted frame); append 1 and 2 bytes; other key. Positions whose damage turns MAC bytes into parser structure are decided at a reduced level recorded per position in coverage.levels: the property's replacement classes (each bit flip, 00, FF, +1) instead of all 255 values, and if needed concrete distinct MAC tokens", thorough="adds BF3 2 components (3 + 16 bytes) and BEC2 update block + encrypted 17-byte component, the first and last byte of both cipher blocks of every auth block, and slightly larger per-position budgets (60/180/1500 s); the 33-byte/2-tag BF3 shape, the two-block BEC2 shape and all 32 ciphertext positions per block were tried and did not fit a tier that can be repeated (single jobs beyond 30 min)"),
+    bounds=dict(quick="shapes: BF3 1 component (5-byte payload, 1 tag), BF3 1 component 16 bytes no tag, BF3 encrypted 17-byte component, BEC2 with customer-key block + 5-byte component; every byte position x {replace, cut, cut+nibble} (BEC2 auth-block ciphertext: one byte of the second cipher block only; C08's arbitrary-frame query covers the frame parser for every decrypted frame); append 1 and 2 bytes; other key. Positions whose damage turns MAC bytes into parser structure are decided at a reduced level recorded per position in coverage.levels: the property's replacement classes (each bit flip, 00, FF, +1) instead of all 255 values, and if needed concrete distinct MAC tokens", thorough="adds BF3 2 components (3 + 16 bytes), the first and last byte of both cipher blocks of every auth block, and slightly larger per-position budgets (60/180/1500 s); the 33-byte/2-tag BF3 shape, the BEC2 update-block and two-block shapes and all 32 ciphertext positions per block were tried and did not fit a tier that can be repeated (single jobs beyond 30 min)"),
     outside=["multi-byte damage other than prefix/suffix", "MAC collisions/forgeries (assumed away by A1/A2)", "shapes beyond the catalogue"],
 )
 
@@ -31,7 +31,6 @@ def shapes(tier):
     if tier == "thorough":
         S += [
             dict(name="bf3-p3+p16", framing="bf3", comps=[comp(3, [(0xC3, 1)]), comp(16, [])]),
-            dict(name="bec2-upd-e17", framing="bec2", blocks=["update"], comps=[comp(17, [(0xC2, 1)], enc=True)]),
         ]
     return S
 
